@@ -602,10 +602,37 @@ _DIV = z3.Function('div@abs', R, R, R)
 _IMUL = z3.Function('imul@abs', I, I, I)
 
 
+def _is_num(c):
+    return z3.is_rational_value(c) or z3.is_int_value(c)
+
+
+def _addends(t):
+    """t as a list of (numeral coefficient or None, term) addends, one level deep"""
+    if z3.is_app(t):
+        kd = t.decl().kind()
+        if kd == z3.Z3_OP_ADD:
+            return [(None, c) for c in t.children()]
+        if kd == z3.Z3_OP_SUB and t.num_args() >= 2:
+            ch = t.children()
+            return [(None, ch[0])] + [(-1, c) for c in ch[1:]]
+        if kd == z3.Z3_OP_UMINUS:
+            return [(-1, t.arg(0))]
+    return [(None, t)]
+
+
+def _atoms_of_product(t, f):
+    """factors of an already abstracted product  f(f(a, b), c) -> [a, b, c]"""
+    if z3.is_app(t) and t.num_args() == 2 and t.decl().eq(f):
+        return _atoms_of_product(t.arg(0), f) + _atoms_of_product(t.arg(1), f)
+    return [t]
+
+
 def abstract_nl(e, cache):
     """replace every product of two non-numeral factors (and division by a non-numeral) by an uninterpreted
-    function application (commutativity by argument ordering).  The abstraction only forgets facts about
-    multiplication, so `unsat` of the abstracted query implies `unsat` of the original."""
+    function application.  Products are first distributed over sums (one level per factor, bounded) and the factors of
+    each monomial sorted, so that (a + b) * s and a * s + b * s abstract to the same term whichever form z3's
+    simplifier produced.  The abstraction only forgets facts about multiplication, so `unsat` of the abstracted query
+    implies `unsat` of the original."""
     i = e.get_id()
     r = cache.get(i)
     if r is not None:
@@ -616,19 +643,48 @@ def abstract_nl(e, cache):
     ch = [abstract_nl(c, cache) for c in e.children()]
     kd = e.decl().kind()
     if kd == z3.Z3_OP_MUL:
-        nums = [c for c in ch if z3.is_rational_value(c) or z3.is_int_value(c)]
-        rest = [c for c in ch if not (z3.is_rational_value(c) or z3.is_int_value(c))]
+        nums = [c for c in ch if _is_num(c)]
+        rest = [c for c in ch if not _is_num(c)]
         if len(rest) >= 2:
-            rest.sort(key=lambda c: c.get_id())
             f = _MUL if e.sort() == R else _IMUL
-            acc = rest[0]
-            for c in rest[1:]:
-                acc = f(acc, c)
+            parts = [_addends(c) for c in rest]
+            n = 1
+            for p_ in parts:
+                n *= len(p_)
+            if n > 48:
+                parts = [[(None, c)] for c in rest]
+            monos = []
+            for combo in itertools.product(*parts):
+                sign = 1
+                atoms = []
+                for co, t in combo:
+                    if co is not None:
+                        sign *= co
+                    if _is_num(t):
+                        nums_t = t
+                        atoms.append(t)
+                    else:
+                        atoms += _atoms_of_product(t, f)
+                lits = [a for a in atoms if _is_num(a)]
+                atoms = [a for a in atoms if not _is_num(a)]
+                atoms.sort(key=lambda c: c.get_id())
+                if not atoms:
+                    acc = z3.RealVal(1) if e.sort() == R else z3.IntVal(1)
+                else:
+                    acc = atoms[0]
+                    for c in atoms[1:]:
+                        acc = f(acc, c)
+                for c in lits:
+                    acc = c * acc
+                if sign == -1:
+                    acc = -acc
+                monos.append(acc)
+            acc = monos[0] if len(monos) == 1 else z3.Sum(monos)
             for c in nums:
                 acc = c * acc
             cache[i] = acc
             return acc
-    if kd == z3.Z3_OP_DIV and not (z3.is_rational_value(ch[1]) or z3.is_int_value(ch[1])):
+    if kd == z3.Z3_OP_DIV and not _is_num(ch[1]):
         r = _DIV(ch[0], ch[1])
         cache[i] = r
         return r
